@@ -89,6 +89,7 @@ func checkC10(c *Ctx) {
 	c.Floor["R10.2"] = 30
 	c.Floor["R10.3"] = 5
 	c.Floor["R10.4"] = 4
+	c.Floor["R10.7"] = 10
 }
 
 func isOptClosure(fn *ssa.Function) bool {
@@ -711,9 +712,10 @@ func c10Creation(c *Ctx, p *Prog, m *Model) {
 		}
 		r.Check(ok, "R10.6", "ResetLevel", p.FuncPos(rl), "restores WarnLevel", "ResetLevel does not restore WarnLevel")
 	}
-	// first store to lvlCurrent in init$1 is WarnLevel
+	// first store to lvlCurrent in init$1 is WarnLevel; start-up helpers that adjust it are called after that store
+	nInit := 0
 	for _, fn := range p.RepoFuncs() {
-		if !strings.HasPrefix(nm(fn), "init") {
+		if !p.startupOnly(fn) {
 			continue
 		}
 		var first *GlobalStore
@@ -723,11 +725,49 @@ func c10Creation(c *Ctx, p *Prog, m *Model) {
 				first = &gs
 			}
 		}
-		if first != nil {
-			v, isC := constInt(first.Val)
-			uncond := len(guardsOf(first.Instr.Block())) == 0
-			r.Check(isC && v == warn && uncond, "R10.6", "init:lvlCurrent", p.Pos(instrPos(first.Instr)), "the factory default is WarnLevel, set unconditionally first", "the first initialisation of the default level is not an unconditional WarnLevel")
+		if first == nil {
+			continue
 		}
+		isInit := strings.HasPrefix(fn.Name(), "init") || (fn.Parent() != nil && strings.HasPrefix(fn.Parent().Name(), "init"))
+		if !isInit {
+			// a helper of the start-up code: each of its call sites must come after a store of the default in the caller
+			okAll := true
+			for _, cs := range p.staticCallers()[fn] {
+				after := false
+				for _, gs := range globalStores(cs.Parent()) {
+					if nm(gs.G) != "lvlCurrent" {
+						continue
+					}
+					if v, isC := constInt(gs.Val); !isC || v != warn || len(guardsOf(gs.Instr.Block())) != 0 {
+						continue
+					}
+					if gs.Instr.Block() == cs.Block() {
+						for _, in := range cs.Block().Instrs {
+							if in == gs.Instr {
+								after = true
+							}
+							if in == ssa.Instruction(cs) {
+								break
+							}
+						}
+					} else if gs.Instr.Block().Dominates(cs.Block()) {
+						after = true
+					}
+				}
+				if !after {
+					okAll = false
+				}
+			}
+			r.Check(okAll, "R10.6", "init:lvlCurrent:"+shortName(fn), p.FuncPos(fn), "the start-up helper adjusts the default level only after the factory default was stored by its caller", "a start-up helper stores the default level but is not called after the unconditional WarnLevel store")
+			continue
+		}
+		nInit++
+		v, isC := constInt(first.Val)
+		uncond := len(guardsOf(first.Instr.Block())) == 0
+		r.Check(isC && v == warn && uncond, "R10.6", "init:lvlCurrent", p.Pos(instrPos(first.Instr)), "the factory default is WarnLevel, set unconditionally first", "the first initialisation of the default level is not an unconditional WarnLevel")
+	}
+	if nInit == 0 {
+		r.Unk("R10.6", "init:lvlCurrent", "-", "no package initialiser stores the default level")
 	}
 }
 
